@@ -112,7 +112,7 @@ class Log:
         key space the short-named keys (written by updates too), both ends and every n-th key"""
         if len(self.keys) <= 300:
             return self.keys
-        step = len(self.keys) // 24
+        step = len(self.keys) // 8
         return [k for i, k in enumerate(self.keys) if len(k) < 3 or i % step == 0 or i >= len(self.keys) - 2]
 
     def vcode(self, v):
@@ -800,9 +800,19 @@ def run(ck):
             return []
         nsh = max(1, min(16, len(sel) // 150))
         # cases of one workload share their terms: keep them in one shard
-        order = sorted(sel, key=lambda i: (its[i][0]["wid"].split("-")[0] == "rerun", its[i][0]["wid"]))
-        per = (len(order) + nsh - 1) // nsh
-        shards = [order[i:i + per] for i in range(0, len(order), per)]
+        # and deal the workloads to the shards heaviest first (weight: cases x log length)
+        bywid = {}
+        for i in sel:
+            bywid.setdefault(its[i][0]["wid"], []).append(i)
+        def weight(wid):
+            lg = wlog.get(wid)
+            return len(bywid[wid]) * (1 + (lg.n if lg is not None else 0) / 50.0)
+        shards, load = [[] for _ in range(nsh)], [0.0] * nsh
+        for wid in sorted(bywid, key=lambda w: (-weight(w), w)):
+            j = load.index(min(load))
+            shards[j].extend(bywid[wid])
+            load[j] += weight(wid)
+        shards = [sh for sh in shards if sh]
         jobs = []
         for si, shd in enumerate(shards):
             body = ";\n".join("xcase %s [%s] %s" % (cbool(chk), "; ".join(its[i][1]["events"]), its[i][1]["exp"]) for i in shd)
